@@ -161,9 +161,6 @@ fn independent_read(text: &str) -> Option<Parsed> {
         for tok in betas[i].split_whitespace() {
             rows[i].push(tok.parse().ok()?);
         }
-        if rows[i].len() != n + 1 {
-            return None;
-        }
     }
     let mut unused = vec![];
     if let Some(u) = content.get("unused") {
@@ -251,6 +248,11 @@ fn judge_map<T: CoordsFloat>(map: &CMap2<T>, text: &str) -> Outcome {
         return Outcome::Violation("ill-formed-map-returned", e);
     }
     let Some(p) = independent_read(text) else { return Outcome::OkUnclaimed };
+    for i in 0..3 {
+        if p.rows[i].len() != p.n + 1 {
+            return Outcome::Violation("map-disagrees-with-text", format!("the beta{i} row of the text has {} values for {} darts (null dart included), yet a map was built", p.rows[i].len(), p.n + 1));
+        }
+    }
     if map.n_darts() != p.n + 1 {
         return Outcome::Violation("map-disagrees-with-text", format!("n_darts() = {} for a text announcing {} darts", map.n_darts(), p.n));
     }
